@@ -26,6 +26,7 @@ type Scenario struct {
 	N    uint8
 
 	Static     time.Duration // static resend timeout (0 = adaptive)
+	StaticS    time.Duration // the server's static resend timeout when it differs (RS=)
 	Handshake  time.Duration // handshake timeout (0 = default)
 	PingC      time.Duration // client keepalive ping (0 = off)
 	PongC      time.Duration
@@ -72,10 +73,10 @@ type Scenario struct {
 	Owns map[string]bool
 }
 
-func (sc *Scenario) timeoutOpts(ping, pong time.Duration) []gbn.TimeoutOptions {
+func (sc *Scenario) timeoutOpts(ping, pong time.Duration, static time.Duration) []gbn.TimeoutOptions {
 	var to []gbn.TimeoutOptions
-	if sc.Static > 0 {
-		to = append(to, gbn.WithStaticResendTimeout(sc.Static))
+	if static > 0 {
+		to = append(to, gbn.WithStaticResendTimeout(static))
 	}
 	if sc.Handshake > 0 {
 		to = append(to, gbn.WithHandshakeTimeout(sc.Handshake))
@@ -87,7 +88,7 @@ func (sc *Scenario) timeoutOpts(ping, pong time.Duration) []gbn.TimeoutOptions {
 }
 
 func (sc *Scenario) clientOpts() []gbn.Option {
-	opts := []gbn.Option{gbn.WithTimeoutOptions(sc.timeoutOpts(sc.PingC, sc.PongC)...)}
+	opts := []gbn.Option{gbn.WithTimeoutOptions(sc.timeoutOpts(sc.PingC, sc.PongC, sc.Static)...)}
 	if sc.MaxChunk > 0 {
 		opts = append(opts, gbn.WithMaxSendSize(sc.MaxChunk))
 	}
@@ -95,7 +96,11 @@ func (sc *Scenario) clientOpts() []gbn.Option {
 }
 
 func (sc *Scenario) serverOpts() []gbn.Option {
-	opts := []gbn.Option{gbn.WithTimeoutOptions(sc.timeoutOpts(sc.PingS, sc.PongS)...)}
+	static := sc.Static
+	if sc.StaticS > 0 {
+		static = sc.StaticS
+	}
+	opts := []gbn.Option{gbn.WithTimeoutOptions(sc.timeoutOpts(sc.PingS, sc.PongS, static)...)}
 	if sc.MaxChunk > 0 {
 		opts = append(opts, gbn.WithMaxSendSize(sc.MaxChunk))
 	}
@@ -210,6 +215,9 @@ func common(sc *Scenario, p params) {
 	if p.has("adaptive") {
 		sc.Static = 0
 	}
+	// RS=<d>: the two ends have different resend timeouts (adaptive timeouts
+	// diverge like this when only one side has been boosted)
+	sc.StaticS = p.dur("RS", 0)
 	sc.Handshake = p.dur("H", 0)
 	if p.has("ka") {
 		// ka=<ping>,<pong> on both sides; the server pings first like
@@ -819,6 +827,17 @@ func init() {
 		sc.ClientScripts = [][]Op{sends('c', k, -1), recvs(1)}
 		sc.ServerScripts = [][]Op{recvs(k), sends('s', 1, -1)}
 		alpha := hostileAlphabet(sc.N)
+		if p["alpha"] == "acks" {
+			// forged acknowledgements only, every value of the sequence
+			// space and one beyond; combined with one dropped packet, so
+			// that the bookkeeping they leave behind is exercised by a
+			// retransmission
+			alpha = nil
+			for v := uint8(0); v <= sc.N+2; v++ {
+				alpha = append(alpha, []byte{gbn.ACK, v}, []byte{gbn.NACK, v})
+			}
+			sc.Faults = FaultCfg{Drop: true, AfterHandshake: true}
+		}
 		sc.ExtraActions = func(w *World) []vrt.Action {
 			if w.injectUsed >= 1 {
 				return nil
